@@ -263,6 +263,25 @@ theorem input_forms_same_map (npix nmodes : Nat) (hm : 0 < nmodes) (f : Nat → 
   · exact ⟨_, fromInput_fields false npix fields hfne hfn, h3, rfl, h5⟩
   · exact ⟨_, fromInput_rows true npix srows hsne, h4, rfl, h6⟩
 
+/-- **Bridge from the driver to the hypotheses of the basis theorems.**  `Input.valid` is the
+check the driver evaluates on every `new` request (shapes of the ndarray, lengths and index
+ranges of the arrays of a sparse matrix — what NumPy/SciPy guarantee for the object); whatever
+`fromInput` builds from a valid input is well-formed.  Together with the `WF r` conclusions of
+`slice_commutes`, `add_is_hconcat`, `extend_is_hconcat`, `append_is_hconcat` and
+`sparse_dense_roundtrip` this makes `WF` hold for every basis the driver ever holds in a
+register, i.e. for every basis the harness compares with the running code. -/
+theorem fromInput_WF (inp : Input K) (hv : inp.valid = true) (b : Basis K)
+    (hb : fromInput inp = some b) : WF b := fromInput_WF_aux inp hv b hb
+
+/-- the validity check is satisfiable by every input form (and rejects a CSC triple whose row
+index exceeds the grid) -/
+example : (Input.ndarray 2 1 [[(1 : Int)], [2]]).valid = true ∧
+    (Input.spmat .csc 2 2 [0, 1, 3] [1, 0, 0] [(5 : Int), 0, 7]).valid = true ∧
+    (Input.spmat .csr 2 2 [0, 2, 3] [0, 1, 1] [(5 : Int), 0, 7]).valid = true ∧
+    (Input.spmat .coo 2 2 [1, 1, 0] [0, 0, 1] [(5 : Int), 2, 7]).valid = true ∧
+    (Input.seq true [.sp 1 3 [(2, (4 : Int))], .sp 1 3 []]).valid = true ∧
+    (Input.spmat .csc 2 1 [0, 1] [2] [(5 : Int)]).valid = false := by decide
+
 variable [DecidableEq K]
 
 /-- **`a + b` is horizontal concatenation**: for bases over the same grid the sum exists, has
@@ -405,6 +424,42 @@ theorem coefficients_storage_independent {K : Type} [AddCommMonoid K] [Sub K] [M
   unfold lstsq
   simp only [hcols, hadj]
   rw [h.2.1]
+
+/-- **One linear map, one behaviour** (the property's first sentence in one statement).  Two
+well-formed bases that denote the same matrix — e.g. the six bases of `input_forms_same_map` —
+agree in every observable: all linear combinations, every index expression (kind of result,
+values, errors), `to_sparse`/`to_dense`, least-squares coefficients for every right-hand side,
+and their concatenations with bases that again denote the same matrix denote the same matrix. -/
+theorem same_map_same_behaviour {K : Type} [Field K] [DecidableEq K] (a b : Basis K)
+    (ha : WF a) (hb : WF b) (h : Same a b) :
+    (∀ c, linComb a c = linComb b c) ∧
+    (∀ ix, (getItem a ix).map Item.den = (getItem b ix).map Item.den) ∧
+    toDense (sparsify a) = toDense (sparsify b) ∧ toDense (densify a) = toDense (densify b) ∧
+    (∀ (conj : K → K) y, lstsq conj a y = lstsq conj b y) ∧
+    (∀ a' b', WF a' → WF b' → Same a' b' → a.npix = a'.npix →
+      ∃ r r', add a a' = some r ∧ add b b' = some r' ∧ Same r r') := by
+  refine ⟨lc_storage_independent a b ha hb h.2.2, getitem_storage_independent a b ha hb h, ?_, ?_,
+    fun conj y => coefficients_storage_independent conj a b h y, ?_⟩
+  · rw [toDense_sparsify, toDense_sparsify, h.2.2]
+  · rw [toDense_densify, toDense_densify, h.2.2]
+  · intro a' b' ha' hb' h' hn
+    obtain ⟨r, e1, _, n1, m1, _, t1⟩ := add_is_hconcat a a' ha ha' hn
+    obtain ⟨r', e2, _, n2, m2, _, t2⟩ := add_is_hconcat b b' hb hb' (by rw [← h.1, ← h'.1, hn])
+    refine ⟨r, r', e1, e2, ?_, ?_, ?_⟩
+    · rw [n1, n2, h.1]
+    · rw [m1, m2, h.2.1, h'.2.1]
+    · rw [t1, t2, h.2.2, h'.2.2]
+
+/-- … in particular for any two valid constructor inputs that denote one matrix. -/
+theorem inputs_same_map_same_behaviour {K : Type} [Field K] [DecidableEq K] (i₁ i₂ : Input K)
+    (v₁ : i₁.valid = true) (v₂ : i₂.valid = true) (a b : Basis K)
+    (h₁ : fromInput i₁ = some a) (h₂ : fromInput i₂ = some b) (h : Same a b) :
+    (∀ c, linComb a c = linComb b c) ∧
+    (∀ ix, (getItem a ix).map Item.den = (getItem b ix).map Item.den) ∧
+    (∀ (conj : K → K) y, lstsq conj a y = lstsq conj b y) := by
+  obtain ⟨p1, p2, _, _, p5, _⟩ :=
+    same_map_same_behaviour a b (fromInput_WF i₁ v₁ a h₁) (fromInput_WF i₂ v₂ b h₂) h
+  exact ⟨p1, p2, p5⟩
 
 /-- the certificate is satisfiable: `x = [2]` solves the normal equations of `A = [[1],[1]]`,
 `y = [1,3]` (and is not an exact solution of `A x = y`) -/
